@@ -2,6 +2,7 @@ import ApolloModel.Proofs.ParserWhole
 import ApolloModel.Proofs.ParserType10
 import ApolloModel.Proofs.ParserSel9
 import ApolloModel.Proofs.ParserComplete29
+import ApolloModel.Proofs.ParserExactS7
 /-
 C07 — Standalone type and field-set parsing consume the whole input.
 Parser model of C01 with the repaired entry points (`expect_end_of_input`).
@@ -283,6 +284,32 @@ theorem type_accept_iff (rl : Nat) (src : Parse.Str) :
         ts.map astOf = (Ast.tTy t).map some ∧ Parse.tyDepth t ≤ rl ∧
         (∀ hd tl, srcToks src = hd :: tl → isIgnoredKind hd.kind = false)) :=
   Parse.parseType_iff rl src
+
+/-- **`fieldset_accept_iff`**: the exact accepted language of `Parser::parse_selection_set` (no token limit, recursion
+    limit `rl`).  Zero errors ⇔ the source has no lexer error and its significant tokens are, followed by EOF, a braced
+    selection set `{ ss }` that STARTS the input (no ignored token in front of the `{`), or a brace-less selection list
+    `ss` — for a non-empty `ss` of the C08 grammar within the EXACT recursion budget: `1 ≤ rl` and
+    `Parse.Exact.fitSels ss (rl − 1)` (each `{ … }` level costs one; each ITEM of a list value and each object-field
+    value inside arguments costs one — `Parse.Exact.vdepth`, not the over-charging `Parse.vdepth` of the earlier
+    completeness theorem; argument values well formed; a spread name is not `on`; inline fragments non-empty).
+    (⇒) is new exact soundness (Proofs/ParserExactS1–6: the soundness proofs of the value grammar and of ParserSel3–6
+    repeated with the budget threaded through `withRec`, next to the old lemmas, whose statements are unchanged);
+    (⇐) is the completeness chain re-instantiated with the exact depth (Proofs/ParserExactC4–16). -/
+theorem fieldset_accept_iff (rl : Nat) (src : Parse.Str) :
+    (parse .selectionSet none rl src).errors = [] ↔
+      (LexClean src ∧ ∃ (ss : Ast.Sels) (ts : List Tok) (e : Tok), sig (srcToks src) = ts ++ [e] ∧ e.kind = .eof ∧
+        ss ≠ Ast.Sels.nil ∧ 1 ≤ rl ∧ Parse.Exact.fitSels ss (rl - 1) ∧
+        ((TokIs ts (.p .lCurly :: Ast.tSels ss ++ [.p .rCurly]) ∧
+            (∀ hd tl, srcToks src = hd :: tl → isIgnoredKind hd.kind = false)) ∨ TokIs ts (Ast.tSels ss))) :=
+  Parse.Exact.parseFieldSet_iff rl src
+
+-- the exact budget (kernel-evaluated): an EMPTY list argument costs nothing beyond the field's level (the charged depth
+-- `Parse.vdepth [] = 1` would demand limit 2), a one-item list costs one
+example : (parse .selectionSet none 1 "a(x: [])".toList).errors = [] := by decide +kernel
+example : (parse .selectionSet none 1 "a(x: {})".toList).errors = [] := by decide +kernel
+example : (parse .selectionSet none 1 "a(x: [1])".toList).errors ≠ [] := by decide +kernel
+example : (parse .selectionSet none 2 "a(x: [1 []])".toList).errors = [] := by decide +kernel
+example : (parse .selectionSet none 2 "a(x: [[1]])".toList).errors ≠ [] := by decide +kernel
 
 end Executable
 
